@@ -244,6 +244,7 @@ CHECKS["C05"] = {
         plain("via_cln", "^TestScriptsViaCLN$", qs=16, ts=16),
         plain("via_lnd", "^TestScriptsViaLND$", qs=16, ts=16),
         plain("via_http", "^TestScriptsViaHTTP$", qs=16, ts=16),
+        plain("bulk", "^TestScriptsBulk$", qs=16, ts=16),
         rapid("poll_during_pay", "^TestPollDuringPay$", 240, 7200, qs=4, ts=16),
     ],
 }
